@@ -13,7 +13,7 @@ class Program:
         self.spliced = 0
         for up, u in units.items():
             if up.startswith('src/'):          # witness units and the header are analysed as written
-                self.spliced += inline.splice_new_helpers(u['functions'])
+                self.spliced += inline.splice_new_helpers(u['functions'], globals_of_unit=u['globals'])
         self.units = units
         self.config = config
         self.functions = {}          # name -> fn (with 'unit')
